@@ -133,6 +133,79 @@ Definition sleep_guard_ok : bool :=
   forallb (fun f => mem f sleep_sites_with_island && negb (mem f sleep_sites_without_island)) sleep_must_test_island &&
   forallb (fun f => mem f sleep_sites_without_island) sleep_only_harmless.
 
+(* ---- which bits each host guard mentions: committed ---------------------------------------------- *)
+(* (function, bits its test depends on) for every host-level flag test of the pipeline, from the regenerated
+   truth tables; dropping or adding a bit in any guard changes this set *)
+Definition gb_eqb (a b : string * list string) : bool := String.eqb (fst a) (fst b) && strs_eqb (snd a) (snd b).
+Definition gb_mem (q : string * list string) (l : list (string * list string)) : bool := existsb (gb_eqb q) l.
+Definition guard_bits : list (string * list string) := map (fun c => (c_fn c, c_flags c)) host_conds.
+Definition guard_bits_expected : list (string * list string) :=
+  [("collision_convex.convex_narrowphase", ["DisableBit.MULTICCD"]);
+   ("collision_driver._narrowphase", ["DisableBit.NATIVECCD"]);
+   ("collision_driver.collision", ["DisableBit.CONSTRAINT"; "DisableBit.CONTACT"]);
+   ("constraint.make_constraint", ["DisableBit.CONSTRAINT"]);
+   ("constraint.make_constraint", ["DisableBit.EQUALITY"]);
+   ("constraint.make_constraint", ["DisableBit.FRICTIONLOSS"]);
+   ("constraint.make_constraint", ["DisableBit.LIMIT"]);
+   ("constraint.make_constraint", ["DisableBit.CONTACT"]);
+   ("derivative.deriv_smooth_vel", ["DisableBit.ACTUATION"; "DisableBit.DAMPER"]);
+   ("derivative.deriv_smooth_vel", ["DisableBit.ACTUATION"]);
+   ("derivative.deriv_smooth_vel", ["DisableBit.DAMPER"]);
+   ("derivative.deriv_smooth_vel", ["DisableBit.DAMPER"; "DisableBit.SPRING"]);
+   ("forward._advance", ["DisableBit.ISLAND"; "EnableBit.SLEEP"]);
+   ("forward.euler", ["DisableBit.DAMPER"; "DisableBit.EULERDAMP"]);
+   ("forward.implicit", ["DisableBit.ACTUATION"; "DisableBit.DAMPER"; "DisableBit.SPRING"]);
+   ("forward.fwd_kinematics", ["DisableBit.ISLAND"; "EnableBit.SLEEP"]);
+   ("forward.fwd_position", ["DisableBit.ISLAND"; "EnableBit.SLEEP"]);
+   ("forward.fwd_actuation", ["DisableBit.ACTUATION"]);
+   ("forward.fwd_acceleration", ["DisableBit.ISLAND"; "EnableBit.SLEEP"]);
+   ("forward._energy_pos", ["EnableBit.ENERGY"]);
+   ("forward._energy_vel", ["EnableBit.ENERGY"]);
+   ("forward.forward", ["DisableBit.ISLAND"; "EnableBit.SLEEP"]);
+   ("forward.forward", ["DisableBit.ACTUATION"]);
+   ("forward.step1", ["DisableBit.ACTUATION"]);
+   ("inverse.discrete_acc", ["DisableBit.EULERDAMP"]);
+   ("inverse.inverse", ["EnableBit.INVDISCRETE"]);
+   ("passive.passive", ["DisableBit.DAMPER"; "DisableBit.SPRING"]);
+   ("passive.passive", ["DisableBit.SPRING"]);
+   ("passive.passive", ["DisableBit.GRAVITY"]);
+   ("passive.passive", ["DisableBit.DAMPER"]);
+   ("passive.passive", ["DisableBit.CONTACT"]);
+   ("sensor.sensor_pos", ["DisableBit.SENSOR"]);
+   ("sensor.sensor_vel", ["DisableBit.SENSOR"]);
+   ("sensor.sensor_acc", ["DisableBit.SENSOR"]);
+   ("sensor.energy_pos", ["DisableBit.GRAVITY"]);
+   ("sensor.energy_pos", ["DisableBit.SPRING"]);
+   ("smooth._rne_cacc_world", ["DisableBit.GRAVITY"]);
+   ("solver.solve", ["DisableBit.ISLAND"; "EnableBit.SLEEP"])].
+Definition guard_bits_ok : bool :=
+  forallb (fun q => gb_mem q guard_bits_expected) guard_bits &&
+  forallb (fun q => gb_mem q guard_bits) guard_bits_expected.
+
+(* the guards that decide whether an integrator modifies the acceleration.  forward.implicit (implicitfast
+   branch) solves with M - h*qDeriv unless ACTUATION, SPRING and DAMPER are ALL disabled: its test must mention
+   every bit a host test of derivative.deriv_smooth_vel mentions (SPRING is there because passive forces,
+   fluid forces included, are off only when SPRING and DAMPER are both disabled), and its truth table is
+   "not all three set".  forward.euler integrates damping implicitly iff neither EULERDAMP nor DAMPER is set. *)
+Definition conds_in (fn : string) : list hcond := filter (fun c => String.eqb (c_fn c) fn) host_conds.
+Definition bits_in (fn : string) : list string := dedup (flat_map c_flags (conds_in fn)).
+Definition table_is (f : list bool -> bool) (c : hcond) : bool :=
+  Nat.eqb (length (c_table c)) (Nat.pow 2 (length (c_flags c))) &&
+  forallb (fun r => match snd r with Some v => Bool.eqb v (f (fst r)) | None => false end) (c_table c).
+Definition implicit_guard_ok : bool :=
+  match conds_in "forward.implicit" with
+  | [c] => strs_eqb (c_flags c) ["DisableBit.ACTUATION"; "DisableBit.DAMPER"; "DisableBit.SPRING"] &&
+           table_is (fun bits => negb (forallb (fun b => b) bits)) c &&
+           subset (bits_in "derivative.deriv_smooth_vel") (c_flags c)
+  | _ => false
+  end.
+Definition euler_guard_ok : bool :=
+  match conds_in "forward.euler" with
+  | [c] => strs_eqb (c_flags c) ["DisableBit.DAMPER"; "DisableBit.EULERDAMP"] &&
+           table_is (fun bits => negb (existsb (fun b => b) bits)) c
+  | _ => false
+  end.
+
 (* ====================================================================================== *)
 (* 3. information flow over event lists                                                      *)
 (* ====================================================================================== *)
